@@ -536,6 +536,16 @@ def reach_cause(pl, t, b, mdl, rc):
         head = src.split()[0].lower()
         m = classify_transfer(src)
         if m is None:
+            # a 12-bit operand that is pc-relative to an absolute constant: K - (position of the line)
+            mo = re.search(r'%offset\(\s*(K\d+)\s*\)', src)
+            if mo and head in ('addi', 'lw', 'sw', 'lb', 'lh', 'lbu', 'lhu', 'sb', 'sh', 'andi', 'ori', 'xori', 'slti', 'sltiu', 'jalr'):
+                probe = lines[:lineno - 1] + ['HERE__:', 'xor x5 x6 x7'] + lines[lineno:]
+                rr = pl.real_assemble('\n'.join(probe), b['notes']['constants'], True, b['notes']['markers'], mdl)
+                if rr[0] == 'ok':
+                    kval = core.concrete(b['notes']['constants'][mo.group(1)], mdl)
+                    v = kval - rr[2]['HERE__']
+                    if v < -2048 or v > 2047:
+                        return 'pc-relative-operand-out-of-range-in-compressed-layout'
             return None
         kind, target = m
         probe = lines[:lineno - 1] + ['HERE__:', 'xor x5 x6 x7'] + lines[lineno:]
